@@ -1,7 +1,7 @@
 import GixModel.Basic.Tree
 /-
 C04 — model of the tree editor `gix_object::tree::Editor` and its `Cursor`
-(/repo/gix-object/src/tree/editor.rs, as repaired by the two `fix:` commits recorded in
+(/repo/gix-object/src/tree/editor.rs, as repaired by the three `fix:` commits recorded in
 known-findings.txt).
 
 State (`Ed`):
@@ -55,6 +55,10 @@ def nullId : Bytes := List.replicate 20 0
 def emptyTreeId : Bytes :=
   [0x4b, 0x82, 0x5d, 0xc6, 0x42, 0xcb, 0x6e, 0xb9, 0xa0, 0x60, 0xe5, 0x4b, 0xf8, 0xd6, 0x92, 0x88,
    0xfb, 0xee, 0x49, 0x04]
+
+/-- ids for which `find` is not consulted: the empty tree, and (after the repair recorded in
+known-findings.txt) the null id of a placeholder -/
+def noFind (id : Bytes) : Bool := id == emptyTreeId || id == nullId
 
 structure Ed where
   trees : Assoc Path (List Entry)
@@ -113,7 +117,7 @@ def descend (ed : Ed) (name : Bytes) (treeToLookup : Option Bytes) : EditRes :=
   | none =>
     match treeToLookup with
     | some id =>
-      if id == emptyTreeId then .ok { ed with pathBuf := pb, trees := aset pb [] ed.trees }
+      if noFind id then .ok { ed with pathBuf := pb, trees := aset pb [] ed.trees }
       else match aget id ed.store with
         | some t => .ok { ed with pathBuf := pb, trees := aset pb t ed.trees }
         | none => .errFind { ed with pathBuf := pb }
